@@ -13,7 +13,7 @@ from vfw import exact as X
 from vfw.core import Sub, Violation
 
 PROP = "C01"
-RULE = ("valid: lattice die (unit dyadic or decimal such as 0.1/0.3/0.0025/2.5, sides 1-12 units) with 0-8 disjoint blockage / "
+RULE = ("valid: lattice die (unit dyadic or decimal such as 0.1/0.3/0.0025/2.5, sides 1-12 units, a quarter of them 20-120 units; the attached netlist may also hold soft modules down to 1e-6 unit^2, which fix the process-wide precision) with 0-8 disjoint blockage / "
         "specialised regions and 0-3 fixed netlist modules packed by construction (touching each other and the border), given as "
         "parsed tree, YAML text (flow or block), file, or 'WxH'. Oracle in Fractions: reported regions inside the die, pairwise "
         "disjoint, areas sum to the die, every Hanan cell of the exact description covered exactly once, inputs reported unchanged "
@@ -31,10 +31,18 @@ _i = st.integers
 
 @st.composite
 def die_in(draw, invalid=False):
-    c = draw(D.die_case())
+    big = draw(_i(0, 3)) == 0
+    c = draw(D.die_case(max_side=120, min_side=20)) if big else draw(D.die_case())
+    # other modules of the attached netlist (they do not occupy the die, but they are part of the description: the
+    # first design loaded fixes the process-wide precision): soft modules, possibly much smaller than the die
+    c["extra"] = []
+    if draw(_i(0, 2)) == 0:
+        for k in range(draw(_i(1, 2))):
+            c["extra"].append([draw(st.sampled_from(["1", "0.09", "0.0001", "0.25", "1e-06", "40"])), draw(_i(0, 2 * c["W"])), draw(_i(0, 2 * c["H"]))])
     has_regions = bool(c["regions"])
     forms = ["tree", "flow", "block", "file"] + ([] if has_regions else ["wxh", "wxh"])
     c["form"] = draw(st.sampled_from(forms))
+    c["flat"] = draw(st.booleans())
     c["mut"] = None
     if invalid:
         W, H = c["W"], c["H"]
@@ -88,8 +96,11 @@ def die_in(draw, invalid=False):
 
 def build(c, scratch=None):
     netlist = None
-    if c["fixed"]:
-        netlist = Netlist(D.fixed_netlist_tree(c))
+    if c["fixed"] or c.get("extra"):
+        u = Fr(c["unit"])
+        extra = {"S%d" % k: {"area": float(Fr(a) * u * u), "center": [X.num(x * u / 2), X.num(y * u / 2)]}
+                 for k, (a, x, y) in enumerate(c.get("extra") or [])}
+        netlist = Netlist(D.fixed_netlist_tree(c, extra))
     form = c["form"]
     u = Fr(c["unit"])
     if form == "tree":
@@ -181,6 +192,14 @@ def run_valid(c):
         cls.append("regions-touch")
     if c["fixed"]:
         cls.append("with-fixed")
+    if c.get("flat") and len(c["regions"]) == 1:
+        cls.append("single-region-without-list")
+    if c.get("extra"):
+        cls.append("netlist-with-soft-modules")
+        if any(Fr(a) < Fr(1, 100) for a, _, _ in c["extra"]):
+            cls.append("tiny-module-in-netlist")
+    if max(c["W"], c["H"]) >= 40:
+        cls.append("large-die")
     # float-rounding class: some border of an input is not reproduced exactly by centre +- size/2 in floats
     rnd = False
     for r in [r[:4] for r in c["regions"]] + [r for rl in c["fixed"] for r in rl]:
@@ -210,7 +229,8 @@ def subchecks():
     return [
         Sub("valid", run_valid, strategy=die_in(False), n_quick=12000, n_thorough=300000,
             required=("tree", "flow", "block", "file", "wxh", "touches-border", "regions-touch", "with-fixed",
-                      "float-rounding", "decimal-unit")),
+                      "float-rounding", "decimal-unit", "single-region-without-list", "netlist-with-soft-modules",
+                      "tiny-module-in-netlist", "large-die")),
         Sub("invalid", run_invalid, strategy=die_in(True), n_quick=6000, n_thorough=120000,
             required=("mut-overlap", "mut-outside")),
     ]
